@@ -4,6 +4,7 @@ import Anysystem.Props.C03
 import Anysystem.Proofs.R4
 import Anysystem.Proofs.R5Main
 import Anysystem.Proofs.R6Demo
+import Anysystem.Proofs.R7Demo
 /-!
 # C04 — The simulator's own execution is always among the model-checked ones
 
@@ -48,5 +49,29 @@ namespace Anysystem
 #check @R6Demo.drop_hyps
 #check @R6Demo.drop_step
 #check @R6Demo.drop_covered
+
+/- R7: the same chain for ARBITRARY drop, duplication and corruption rates (`Proofs/R7*.lean`).  `TimedRelF` is `TimedRel`
+   without the restriction on the rates (`TimedRel.toF`); one simulator step is a reference run of one deliver/fire label
+   followed by at most three fault labels per send of the handler call (`sim_step_refines_fates`: the copies the simulator
+   queued for a send — `SendFate`, up to three, intact or corrupted — are what `fatePathMid` makes of the flight the
+   reference `send` created, `fates_covered`); every label, fault labels included, is matched by a checker expansion
+   (`r7_run_matched`, via `alternatives_complete'`); hence `sim_run_covered_fates`: C04 end to end for arbitrary rates.
+   Additional hypothesis `FreshSendsFrom`: when the network can duplicate or corrupt, a handler never sends a message
+   whose (message, sender, receiver) triple — or that of its corruption — is already in the air (messages carrying
+   sequence numbers satisfy it: `freshSend_of_tip`, `R7Demo.fateH_fresh`); `fate_needs_fresh` (C12) shows that without it
+   fault labels alone do not reach every fate (behind an identical older flight the faults of the new one have to wait
+   for deliveries in between).  `R7Demo.fates_covered_demo`: every hypothesis discharged on a concrete run in which the
+   simulator corrupts and duplicates a message after the snapshot (DFS and BFS). -/
+#check @TimedRel.toF
+#check @fate_covered_mid
+#check @fates_covered
+#check @sim_step_refines_fates
+#check @timedRelF_snapshot
+#check @sim_step_matched_fates
+#check @sim_run_covered_fates
+#check @freshSend_of_tip
+#check @R7Demo.fateH_fresh
+#check @R7Demo.fate_step
+#check @R7Demo.fates_covered_demo
 
 end Anysystem
